@@ -210,6 +210,7 @@ type TxSpec struct {
 	Gas      uint64
 	Mode     signing.SignMode
 	FeePayer string // explicit AuthInfo.Fee.Payer ("" = none)
+	FeeCoins sdk.Coins // when set, the whole fee (any denominations); Fee is then ignored
 }
 
 func (c *Chain) acctNumSeq(addr sdk.AccAddress) (uint64, uint64) {
@@ -239,7 +240,9 @@ func (c *Chain) BuildTx(spec TxSpec) (bz []byte, err error) {
 	if err := b.SetMsgs(spec.Msgs...); err != nil {
 		return nil, err
 	}
-	if spec.Fee > 0 {
+	if spec.FeeCoins != nil {
+		b.SetFeeAmount(spec.FeeCoins)
+	} else if spec.Fee > 0 {
 		b.SetFeeAmount(sdk.NewCoins(sdk.NewInt64Coin(feeDenom, spec.Fee)))
 	}
 	gas := spec.Gas
